@@ -632,6 +632,18 @@ impl<T: Config> P2PSession<T> {
                 .expect("Missing local input while calling advance_frame().");
             let actual_frame = self.sync_layer.add_local_input(handle, player_input);
             if actual_frame != NULL_FRAME {
+                // With an input delay the very first input lands on a later frame and the input
+                // queue fills the frames before it with the default input. Remote peers must be
+                // told about those frames as well, or the outgoing frames of this session never
+                // become complete when its local players use different delays.
+                if self.local_connect_status[handle].last_frame == NULL_FRAME {
+                    for fill_frame in 0..actual_frame {
+                        self.queue_outgoing_local_input(
+                            handle,
+                            PlayerInput::blank_input(fill_frame),
+                        );
+                    }
+                }
                 let queued_input = PlayerInput::new(actual_frame, player_input.input);
                 self.local_connect_status[handle].last_frame = queued_input.frame;
                 self.queue_outgoing_local_input(handle, queued_input);
